@@ -548,16 +548,12 @@ impl DrawState {
 
         let shift = match self.alignment {
             // If we align to the bottom and the new height is less than before, clear the lines
-            // that are not used by the new content.
-            MultiProgressAlignment::Bottom if full_height < *bar_count => {
-                let shift = *bar_count - full_height;
-                for _ in 0..shift.as_usize() {
-                    term.write_line("")?;
-                }
-                shift
-            }
+            // that are not used by the new content. These blank lines belong to the progress
+            // region, so they are printed below any text lines, directly above the bars.
+            MultiProgressAlignment::Bottom if full_height < *bar_count => *bar_count - full_height,
             _ => VisualLines::default(),
         };
+        let mut shifted = shift == VisualLines::default();
 
         // Accumulate the displayed height in here. This differs from `full_height` in that it will
         // accurately reflect the number of lines that have been displayed on the terminal, if the
@@ -583,6 +579,13 @@ impl DrawState {
                 term.write_line("")?;
             }
 
+            if !shifted && matches!(line, LineType::Bar(_)) {
+                for _ in 0..shift.as_usize() {
+                    term.write_line("")?;
+                }
+                shifted = true;
+            }
+
             term.write_str(line.as_ref())?;
 
             if idx == 0 && self.lines.len() > 1 && line.console_width() == 0 {
@@ -600,12 +603,24 @@ impl DrawState {
             }
         }
 
-        term.flush()?;
         if !self.lines.is_empty() {
             self.cursor_below = false;
         } else if *bar_count > VisualLines::default() {
             self.cursor_below = true;
         }
+
+        if !shifted {
+            // No bars were printed: the blank lines go below the text lines (if any)
+            if !self.lines.is_empty() {
+                term.write_line("")?;
+            }
+            for _ in 0..shift.as_usize() {
+                term.write_line("")?;
+            }
+            self.cursor_below = true;
+        }
+
+        term.flush()?;
         *bar_count = real_height + shift;
 
         Ok(())
